@@ -21,7 +21,7 @@ theorem addRoot_roots (X : Forest) (e : HTree) : (X.addRoot e).roots = X.roots +
 
 theorem addRoot_allHandles (X : Forest) (e : HTree) : (X.addRoot e).allHandles = X.allHandles ++ handles e := by
   unfold Forest.allHandles
-  rw [addRoot_roots, handlesList_append, handlesList_cons, handlesList_nil, List.append_nil]
+  rw [addRoot_roots, fs_handlesList_append, handlesList_cons, handlesList_nil, List.append_nil]
 
 theorem addRoot_get_left {X : Forest} {x : Nat} {u : HTree} (e : HTree) (h : X.get? x = some u) :
     (X.addRoot e).get? x = some u :=
@@ -386,13 +386,13 @@ theorem wrapMid_spec {f : Forest} {p : Nat} {v : Value} {l : List HTree} {t : HT
   have hpin : p ∈ f.allHandles := mem_of_findList?_some s.kids
   have hpw : p ≠ f.next := fun e => hw (e ▸ hpin)
   have hpt : p ∉ handles t := fun h => hpL (by
-    rw [handlesList_append, handlesList_cons]
+    rw [fs_handlesList_append, handlesList_cons]
     exact List.mem_append_right _ (List.mem_append_left _ h))
   -- the cut
   have sc : SiteAt (cutSite f p t.handle) p v (l ++ r) := by
     have := sF.edit (replaceTop t.handle (fun _ => [])) (by
       rw [hgL]
-      simp only [handlesList_append, handlesList_cons]
+      simp only [fs_handlesList_append, handlesList_cons]
       exact (List.Sublist.refl _).append (List.sublist_append_right _ _))
     rw [hgL] at this
     exact this
@@ -400,7 +400,7 @@ theorem wrapMid_spec {f : Forest} {p : Nat} {v : Value} {l : List HTree} {t : HT
     handlesList_editAt_perm (g := replaceTop t.handle (fun _ => [])) (E := handles t)
       (by
         rw [hgL]
-        simp only [handlesList_append, handlesList_cons]
+        simp only [fs_handlesList_append, handlesList_cons]
         rw [List.append_assoc]
         exact List.Perm.append_left _ List.perm_append_comm) f.roots nd s.kids
   have hcnt : ∀ z, (cutSite f p t.handle).allHandles.count z + (handles t).count z = f.allHandles.count z := by
@@ -413,11 +413,11 @@ theorem wrapMid_spec {f : Forest} {p : Nat} {v : Value} {l : List HTree} {t : HT
   have hnc : t.handle ∉ (cutSite f p t.handle).allHandles := by
     intro h
     have h1 := List.count_pos_iff.2 h
-    have h2 := List.count_pos_iff.2 (handle_mem_handles t)
+    have h2 := List.count_pos_iff.2 (fs_handle_mem_handles t)
     have := hcnt t.handle
     have := hle t.handle
     omega
-  have hnw : t.handle ≠ f.next := fun e => hwt (e ▸ handle_mem_handles t)
+  have hnw : t.handle ≠ f.next := fun e => hwt (e ▸ fs_handle_mem_handles t)
   -- after `new_element`
   have ndZ1 : (f.bump.addRoot (wrapNew f name)).allHandles.Nodup := by
     rw [Forest.addRoot_allHandles, wrapNew, handles_node, handlesList_nil]
@@ -464,7 +464,7 @@ theorem wrapMid_spec {f : Forest} {p : Nat} {v : Value} {l : List HTree} {t : HT
     | inl h => exact hnc h
     | inr h => exact hnw (by simpa using h)
   have hgn2 : (((cutSite f p t.handle).addRoot (wrapNew f name)).addRoot t).get? t.handle = some t := by
-    rw [Forest.addRoot_get_new _ hnZ, find?_self]
+    rw [Forest.addRoot_get_new _ hnZ, fs_find?_self]
   unfold Forest.wrapMid at hmid
   have hmid' : (f.wrapMid t.handle name).1 =
       (cutSite f p t.handle).addRoot (wrapTree f name t) := by
